@@ -1,0 +1,7 @@
+//go:build !verif
+
+package s3db
+
+import "time"
+
+func verifNow() (time.Time, bool) { return time.Time{}, false }
